@@ -173,7 +173,10 @@ class Canon:
         if isinstance(e, ast.Call):
             return self._call(e)
         if isinstance(e, ast.Subscript):
-            return ('sub', self._t(e.value), self._t(e.slice))
+            base, idx = self._t(e.value), self._t(e.slice)
+            if base[0] == 'attr' and base[2] == 'shape' and idx == ('num', 0):
+                return ('call', ('name', 'len'), (base[1],), ())          # x.shape[0] is len(x)
+            return ('sub', base, idx)
         if isinstance(e, ast.Slice):
             return ('slice', self._t(e.lower) if e.lower else ('none',), self._t(e.upper) if e.upper else ('none',), self._t(e.step) if e.step else ('none',))
         if isinstance(e, ast.Tuple):
@@ -238,13 +241,55 @@ class Canon:
         if dotted in ('numpy.abs', 'numpy.absolute', 'numpy.fabs') or (ft == ('name', 'abs')):
             if len(args) == 1:
                 return ('call', ('lib', 'abs'), (args[0],), kws)
+        if dotted == 'numpy.flatnonzero' and len(args) == 1 and not kws:
+            return ('sub', ('call', ('lib', 'numpy.nonzero'), (args[0],), ()), ('num', 0))
+        if dotted == 'numpy.where' and len(args) == 1 and not kws:
+            return ('call', ('lib', 'numpy.nonzero'), (args[0],), ())
+        if dotted == 'numpy.sum' and len(args) == 1 and not kws and args[0][0] == 'cmp':
+            return ('call', ('lib', 'numpy.count_nonzero'), (args[0],), ())
+        if isinstance(f, ast.Attribute) and ft[0] == 'attr' and f.attr == 'to_numpy' and not args and not kws:
+            return ('attr', ft[1], 'values')
         if dotted == 'numpy.negative' and len(args) == 1:
             return self._mul([('num', -1), args[0]])
         if dotted == 'numpy.logical_not' and len(args) == 1:
             return self._not(args[0])
         if isinstance(f, ast.Attribute) and ft[0] == 'attr' and f.attr in METHOD_AS_FUNC and not args:
+            if f.attr == 'sum' and not kws and ft[1][0] == 'cmp':
+                return ('call', ('lib', 'numpy.count_nonzero'), (ft[1],), ())
             return ('call', ('lib', METHOD_AS_FUNC[f.attr]), (ft[1],), kws)
+        # a package helper whose body is a single `return <expr>` is the expression itself (helper extraction is tolerated)
+        helper = self._single_return_helper(ft)
+        if helper is not None and not kws and not any(isinstance(a, ast.Starred) for a in e.args) and len(self._stack) < 6:
+            params = [a.arg for a in helper.node.args.args]
+            if len(params) == len(args) and not helper.node.args.vararg and not helper.node.args.kwarg:
+                body = [b for b in helper.node.body if not (isinstance(b, ast.Expr) and isinstance(b.value, ast.Constant))]
+                self._stack.append('<call>' + helper.qualname)
+                try:
+                    sub = Canon(self.m, Scope(helper), self.inline, {**{k: v for k, v in self.bound.items() if k not in params}, **dict(zip(params, args))})
+                    sub._stack = self._stack
+                    return sub._t(body[0].value)
+                finally:
+                    self._stack.pop()
         return ('call', ft, tuple(args), kws)
+
+    def _single_return_helper(self, ft):
+        name = None
+        if ft[0] == 'lib' and ft[1].startswith(self.m.name + '.'):
+            name = ft[1][len(self.m.name) + 1:]
+        elif ft[0] == 'name':
+            name = ft[1]
+        if not name:
+            return None
+        cands = [f for q, f in self.m.funcs.items() if q == name or q.endswith('.' + name)]
+        if len(cands) != 1 or ('<call>' + cands[0].qualname) in self._stack:
+            return None
+        h = cands[0]
+        if h.cls is not None or h.node.decorator_list:
+            return None
+        body = [b for b in h.node.body if not (isinstance(b, ast.Expr) and isinstance(b.value, ast.Constant))]
+        if len(body) == 1 and isinstance(body[0], ast.Return) and body[0].value is not None:
+            return h
+        return None
 
     def _not(self, v):
         if v[0] == 'cmp':
@@ -258,6 +303,18 @@ class Canon:
     def _cmp(self, op, l, r):
         if op in ('>', '>='):
             op, l, r = FLIP[op], r, l
+        # membership in a literal collection of constants does not depend on the kind of collection
+        if op in ('in', 'notin') and r[0] in ('tuple', 'list') and all(isinstance(x, tuple) and x and x[0] in ('num', 'str') for x in r[1:]):
+            r = ('set', tuple(sorted(r[1:], key=repr)))
+        # s.find(x) >= 0 / != -1  is  x in s ;  s.find(x) < 0 / == -1  is  x not in s
+        for a, b, flip in ((l, r, False), (r, l, True)):
+            if b[0] == 'call' and b[1][0] == 'attr' and b[1][2] == 'find' and len(b[2]) == 1 and not b[3] and a[0] == 'num':
+                o = op if not flip else {'<': '>', '<=': '>=', '==': '==', '!=': '!='}.get(op)
+                # now reads: a o b   with a the number, b the find call  (when flip: b o' a rewritten as a o b)
+                rel = {('<=', 0): 'in', ('<', -1): 'in', ('!=', -1): 'in', ('>', 0): 'notin', ('>=', -1 + 0): None, ('==', -1): 'notin'}
+                key = (o, a[1])
+                if key in rel and rel[key]:
+                    return ('cmp', rel[key], b[2][0], b[1][1])
         if op in ('==', '!=') and repr(l) > repr(r):
             l, r = r, l
         return ('cmp', op, l, r)
